@@ -665,6 +665,12 @@ func (e *Engine) globalFacts(vc *VC, g *ssa.Global, ref string) {
 					n = toSigned(n, cl.W)
 				}
 				cv = intLit(n)
+				if cl.W == 64 && n.Sign() > 0 && n.BitLen() > 1 {
+					if vc.knownNumerals == nil {
+						vc.knownNumerals = map[string]bool{}
+					}
+					vc.knownNumerals[cv] = true
+				}
 			}
 			vc.decls = append(vc.decls, fmt.Sprintf("(assert (= (select (select %s %s) %s) %s))", vc.heap0.m[comp], ref, off64(o), cv))
 		}
